@@ -8,6 +8,7 @@
 #![allow(dead_code)]
 
 mod budget;
+mod build;
 mod common;
 mod debug;
 mod genproj;
@@ -20,9 +21,10 @@ use common::*;
 use driver::Engine;
 
 static BUDGET: budget::BudgetEngine = budget::BudgetEngine;
+static BUILD: build::BuildEngine = build::BuildEngine;
 
 fn engines() -> Vec<&'static dyn Engine> {
-    vec![&BUDGET]
+    vec![&BUDGET, &BUILD]
 }
 
 fn find_engine(name: &str) -> Option<&'static dyn Engine> {
@@ -105,6 +107,8 @@ fn main() {
             let seed: u64 = args[2].parse().expect("seed");
             debug::tryproj(seed, args.get(3).is_some())
         }
+        Some("probe-alltypes") => build::probe_alltypes_main(&args[2]),
+        Some("inst") => debug::inst(&args[2], &args[3], args.get(4).map(|s| s.as_str()).unwrap_or("")),
         Some("hashprobe") => {
             let mut orders = std::collections::BTreeSet::new();
             let mut stable = true;
